@@ -34,6 +34,8 @@ Inductive stmt :=
 | AwaitOther (src : string)       (* an await of something untracked: a suspension point that may raise *)
 | Call (o : obj) (m : string)     (* [await] <o>.<m>(...) *)
 | TryFinally (body fin : stmt)
+| TryExcept (body handler : stmt)  (* try: body  except BaseException: handler   (`raise` in it = Raise) *)
+| WaitFor (body : stmt)            (* await asyncio.wait_for(<body>, timeout=...) *)
 | Yield                           (* the `yield` of an asynccontextmanager *)
 | WithCall (o : obj) (m : string) (body : stmt).   (* async with <o>.<m>(...): body *)
 
@@ -62,6 +64,8 @@ Fixpoint subst_yield (g body : stmt) : stmt :=
   | WithLock a => WithLock (subst_yield a body)
   | If c a b => If c (subst_yield a body) (subst_yield b body)
   | TryFinally a b => TryFinally (subst_yield a body) (subst_yield b body)
+  | TryExcept a b => TryExcept (subst_yield a body) (subst_yield b body)
+  | WaitFor a => WaitFor (subst_yield a body)
   | WithCall o m a => WithCall o m (subst_yield a body)
   | x => x
   end.
